@@ -255,6 +255,12 @@ func (le *logicEnv) eval(fn *Func, e ast.Expr, subst map[types.Object]ast.Expr) 
 			if r, ok := subst[obj]; ok {
 				return le.eval(fn, r, nil)
 			}
+		} else if x.Name == "nil" {
+			// synthetic nil in formulas built by rules
+			if le.collect {
+				return lval{n: 0, ok: true, cs: []int64{0}}
+			}
+			return lval{n: 0, ok: true}
 		}
 	case *ast.UnaryExpr:
 		switch x.Op {
